@@ -76,6 +76,26 @@ def _opname(descr):
     return _OP.split(descr, 1)[0]
 
 
+_CALLERS = {}
+
+
+def single_caller(prog, d):
+    """the one crate-local function that calls `d` (closures count as their enclosing function), if `d` is
+    a private function with exactly one caller"""
+    if not _CALLERS:
+        for dn, bb in prog.bodies.items():
+            for _, t in bb.calls():
+                c = mir.callee_name(t)
+                if c in prog.bodies and c != dn:
+                    _CALLERS.setdefault(c, set()).add(re.sub(r"(::\{closure#\d+\})+$", "", dn))
+        _CALLERS["__done__"] = set()
+    b = prog.bodies.get(d)
+    if b is None or b.raw.get("pub") or "{closure" in d:
+        return None
+    cs = _CALLERS.get(d, set()) - {d}
+    return next(iter(cs)) if len(cs) == 1 else None
+
+
 def _folded_key(prog, b, d, descr):
     """Key of a site inside a closure as if it stood in the enclosing function: `::{closure}` dropped from the
     function part, captured operands (`param #1.N`) named by the captured place (`self.from`)."""
@@ -155,6 +175,15 @@ def run(ctx, F):
                 ctx.reviewed("F1-panic", fk, reviewed[fk] + " (same operation and operands; the site moved between the reviewed function and one of its closures)")
                 ctx.count("reviewed")
                 continue
+            # the reviewed operation was moved, unchanged, into a private helper that only the reviewed
+            # function calls (a function split in two): the row of the single caller applies
+            cs = single_caller(prog, d)
+            if cs is not None:
+                k2 = f"{fn_key(cs, prog)}|{descr}"
+                if k2 in reviewed:
+                    ctx.reviewed("F1-panic", k2, reviewed[k2] + f" (site now in the helper {mir.short(d)}, called only by the reviewed function)")
+                    ctx.count("reviewed")
+                    continue
             path = prog.path_to(seen_nostatic, d)
             pending.append((key, fn_key(d, prog) + "|" + _opname(descr), s, descr, d, where, path))
     # known findings are call sites: when the operand provenance in a key changed (the code around the site was
